@@ -639,31 +639,49 @@ def counting_tables(ctx: Ctx) -> None:
     ctx.expect("R-TABLE", p.func(f"{mod}:count_steps"), "count_steps counts groups of at least 1", default_of(f"{mod}:count_steps", "same_beat_minimum") == 1, "", "", node=p.func(f"{mod}:count_steps").node)
     ctx.expect("R-TABLE", p.func(f"{mod}:count_hands"), "count_hands counts groups of at least 3", default_of(f"{mod}:count_hands", "same_beat_minimum") == 3, "", "", node=p.func(f"{mod}:count_hands").node)
     ctx.expect("R-TABLE", p.func(f"{mod}:count_grouped_notes"), "count_grouped_notes default minimum is 1", default_of(f"{mod}:count_grouped_notes", "same_beat_minimum") == 1, "", "", node=p.func(f"{mod}:count_grouped_notes").node)
-    # count_jumps -> count_steps(..., same_beat_minimum=2)
-    cj = p.func(f"{mod}:count_jumps")
-    cc = [c for c in calls(cj) if callee_name(ctx, cj, c) == f"{mod}:count_steps"]
-    c = one(cc, "count_steps call in count_jumps")
-    kw = {k.arg: k.value for k in c.keywords}
-    ctx.expect("R-TABLE", cj, "count_jumps = count_steps with same_beat_minimum=2", try_ev(ctx, cj, kw.get("same_beat_minimum")) == 2 if "same_beat_minimum" in kw else False, "",
-               f"same_beat_minimum={src(kw['same_beat_minimum']) if 'same_beat_minimum' in kw else 'absent'}", node=c)
-    for fq in ("count_jumps", "count_hands"):
-        f = p.func(f"{mod}:{fq}")
-        rr = [r for r in body_walk(f.node) if isinstance(r, ast.Return)]
-        ok = len(rr) == 1 and isinstance(rr[0].value, ast.Call) and callee_name(ctx, f, rr[0].value) == f"{mod}:count_steps" and rr[0].value.args \
-            and isinstance(rr[0].value.args[0], ast.Name) and rr[0].value.args[0].id == f.param_names()[0]
-        ctx.expect("R-TABLE", f, f"{fq} returns count_steps(notes, ...)", ok, "", "", node=f.node)
-    # count_steps -> count_grouped_notes(group_notes(notes, ...), same_beat_minimum=...)
-    cs = p.func(f"{mod}:count_steps")
-    rr = [r for r in body_walk(cs.node) if isinstance(r, ast.Return)]
-    ok = False
-    if len(rr) == 1 and isinstance(rr[0].value, ast.Call) and callee_name(ctx, cs, rr[0].value) == f"{mod}:count_grouped_notes":
-        outer = rr[0].value
-        inner = inline(outer.args[0], cs) if outer.args else None
-        if isinstance(inner, ast.Call) and callee_name(ctx, cs, inner) == "simfile.notes.group:group_notes":
-            kwi = {k.arg for k in inner.keywords}
-            ok = inner.args and isinstance(inner.args[0], ast.Name) and inner.args[0].id == cs.param_names()[0] and "join_heads_to_tails" not in kwi \
-                and "orphaned_head" not in kwi and "orphaned_tail" not in kwi
-    ctx.expect("R-TABLE", cs, "count_steps = count_grouped_notes(group_notes(notes, types, mode), minimum) without joining", bool(ok), "", "", node=cs.node)
+    # count_steps / count_jumps / count_hands: count_grouped_notes(group_notes(notes, include_note_types, same_beat_notes) [no joining], minimum)
+    # with minimum = the caller's for steps, 2 for jumps, 3 for hands - written directly or through count_steps / a shared helper
+    from .tables import closed as _closed, sums_of as _tsums
+    from ..flow import call_args as _call_args
+
+    def shape_of(fn_name: str):
+        """(group_notes arguments by name, minimum expression text) of what the function returns, following count_steps one level."""
+        f_ = p.func(f"{mod}:{fn_name}")
+        outs = set()
+        for s_ in _tsums(ctx, f_):
+            k_, v_ = s_.terminal()
+            if k_ != "return" or v_ is None:
+                outs.add((None, k_))
+                continue
+            v_ = _closed(s_, v_, opq=frozenset(x.id for x in ast.walk(v_) if isinstance(x, ast.Name)))
+            outs.add(_shape_expr(f_, v_))
+        return outs
+
+    def _shape_expr(f_, v_):
+        if isinstance(v_, ast.Call) and isinstance(v_.func, ast.Name) and v_.func.id == "count_steps":
+            args = _call_args(v_, p.func(f"{mod}:count_steps"))
+            inner = {"notes": "notes", "include_note_types": "include_note_types", "same_beat_notes": "same_beat_notes"}
+            got = {k: ast.unparse(x) for k, x in args.items()}
+            defaults = {k: ast.unparse(d) for k, d in p.func(f"{mod}:count_steps").defaults().items()}
+            g_args = tuple(sorted((k, got.get(k, defaults.get(k, "?"))) for k in inner))
+            return (g_args, got.get("same_beat_minimum", defaults.get("same_beat_minimum", "?")))
+        if isinstance(v_, ast.Call) and isinstance(v_.func, ast.Name) and v_.func.id == "count_grouped_notes":
+            cg_ = p.func(f"{mod}:count_grouped_notes")
+            args = _call_args(v_, cg_)
+            gn = args.get(cg_.param_names()[0])
+            mn = args.get("same_beat_minimum")
+            mn_t = ast.unparse(mn) if mn is not None else ast.unparse(cg_.defaults()["same_beat_minimum"])
+            if isinstance(gn, ast.Call) and isinstance(gn.func, ast.Name) and gn.func.id == "group_notes":
+                ga = _call_args(gn, p.func("simfile.notes.group:group_notes"))
+                return (tuple(sorted((k, ast.unparse(x)) for k, x in ga.items())), mn_t)
+        return (None, ast.unparse(v_))
+
+    want_args = tuple(sorted({"notes": "notes", "include_note_types": "include_note_types", "same_beat_notes": "same_beat_notes"}.items()))
+    for fn_name, mn_want in (("count_steps", "same_beat_minimum"), ("count_jumps", "2"), ("count_hands", "same_beat_minimum")):
+        f_ = p.func(f"{mod}:{fn_name}")
+        got = shape_of(fn_name)
+        ok = got == {(want_args, mn_want)}
+        ctx.expect("R-TABLE", f_, f"{fn_name} = count_grouped_notes(group_notes(notes, types, mode) without joining, minimum {mn_want})", ok, "", f"{fn_name} returns {sorted(got, key=str)}", node=f_.node)
     # count_grouped_notes / count_mines: a counter incremented exactly under the documented condition, once per element
     def counter_rule(fn: FunctionInfo, cond_of, title: str, why: str) -> None:
         from .tables import judge as tjudge, loop_decs, sums_of as tsums, resolved
